@@ -98,8 +98,6 @@ Definition w01_history : list action :=
    GetMetadata 1;                                 (* handed out 11,12 *)
    CallerWrite 12%nat (Cell (TNode 97) [11%nat])].  (* m["type"] = "changed" *)
 
-Ltac reach_by_root := match goal with |- reach _ _ ?l => exists l; split; [cbn; tauto|apply rt_here] end.
-
 Example C01own_nonvacuous :
   ok_trace init w01_history /\
   content_store (run w01_history init) =
@@ -108,15 +106,46 @@ Example C01own_nonvacuous :
   content_of (heap_of (run w01_history init)) 2%nat =
     Ok (T (TEv None 0 1000000) [T (TNode 6) [T (TNode 99) []]]) /\
   content_of (heap_of (run w01_history init)) 10%nat =
-    Ok (T (TEv (Some 0) 0 9000000) [T (TNode 6) [T (TNode 98) []]]).
+    Ok (T (TEv (Some 0) 0 9000000) [T (TNode 6) [T (TNode 98) []]]) /\
+  content_of (heap_of (run w01_history init)) 12%nat =
+    Ok (T (TNode 97) [T (TNode EMPTY_DICT) []]).
 Proof.
   split; [|vm_compute; repeat split; reflexivity].
-  unfold w01_history. cbn [ok_trace caller_ok]. 
-  repeat match goal with
-         | |- _ /\ _ => split
-         | |- True => exact I
-         | |- forall k, In k _ -> _ => cbn [children In]; intros k HI
-         end;
-  repeat match goal with H : _ \/ _ |- _ => destruct H as [H|H] | H : False |- _ => destruct H end;
-  subst; try (vm_compute; reach_by_root).
-Abort.
+  unfold w01_history.
+  pose proof Sep_init as SP.
+  (* three allocations *)
+  apply ok_trace_cons; [exact SP|cbn; intros k []|clear SP; intro SP].
+  apply ok_trace_cons; [exact SP| |clear SP; intro SP].
+  { cbn [caller_ok children]. intros k [<-|[]].
+    apply (reach_by_path _ _ 0%nat [] 0%nat); vm_compute; reflexivity. }
+  apply ok_trace_cons; [exact SP| |clear SP; intro SP].
+  { cbn [caller_ok children]. intros k [<-|[]].
+    apply (reach_by_path _ _ 1%nat [] 1%nat); vm_compute; reflexivity. }
+  (* create_bucket, insert_one: store operations, no obligation *)
+  apply ok_trace_cons; [exact SP|exact I|clear SP; intro SP].
+  apply ok_trace_cons; [exact SP|exact I|clear SP; intro SP].
+  (* e.data["k"]["n"] = 2: location 0 through the event the caller passed in *)
+  apply ok_trace_cons; [exact SP| |clear SP; intro SP].
+  { eapply caller_retag_ok; [exact SP| |vm_compute; reflexivity].
+    apply (reach_by_path _ _ 2%nat [0%nat; 0%nat] 2%nat); vm_compute; reflexivity. }
+  (* the event handed back by insert *)
+  apply ok_trace_cons; [exact SP| |clear SP; intro SP].
+  { eapply caller_retag_ok; [exact SP| |vm_compute; reflexivity].
+    apply (reach_by_path _ _ 3%nat [] 10%nat); vm_compute; reflexivity. }
+  apply ok_trace_cons; [exact SP| |clear SP; intro SP].
+  { eapply caller_retag_ok; [exact SP| |vm_compute; reflexivity].
+    apply (reach_by_path _ _ 3%nat [0%nat; 0%nat] 10%nat); vm_compute; reflexivity. }
+  apply ok_trace_cons; [exact SP|exact I|clear SP; intro SP].
+  (* the metadata dict handed out *)
+  apply ok_trace_cons; [exact SP| |intros _; exact I].
+  { eapply caller_retag_ok; [exact SP| |vm_compute; reflexivity].
+    apply (reach_by_path _ _ 4%nat [] 12%nat); vm_compute; reflexivity. }
+Qed.
+
+(* Contrast: copy.copy (what insert_one and replace used before /repo 97358ba) yields a
+   top cell that shares every child with the original, so the separation fails. *)
+Theorem C01_shallow_copy_shares : forall h l h' l' c,
+  shallow_copy h l = Ok (h', l') -> lookup h l = Some c ->
+  lookup h' l' = Some c /\ forall k, In k (children c) -> edge h' l k /\ edge h' l' k.
+Proof. exact shallow_copy_shares. Qed.
+Print Assumptions C01_shallow_copy_shares.
